@@ -5,6 +5,7 @@ import (
 	"strings"
 	"unicode/utf8"
 
+	"verifharness/internal/c10"
 	"verifharness/internal/core"
 )
 
@@ -65,7 +66,10 @@ func fixed() []Snip {
 	}
 }
 
-type gen struct{ r *core.RNG }
+type gen struct {
+	r    *core.RNG
+	rich bool // RenderStack stream: leaves that refer to packages
+}
 
 func (g *gen) lit() string {
 	r := g.r
@@ -106,6 +110,9 @@ func (g *gen) val() Val {
 // an argument snippet: nil-like / empty / literal / nested template / placeholder-looking
 func (g *gen) argSnip(depth int) Snip {
 	r := g.r
+	if g.rich && r.Chance(55) {
+		return g.richLeaf()
+	}
 	k := r.Intn(100)
 	switch {
 	case k < 8:
@@ -268,6 +275,8 @@ func (g *gen) sprintf(depth int) Snip {
 	var args []Arg
 	for _, vb := range verbs {
 		switch {
+		case g.rich && r.Chance(60):
+			args = append(args, varg(g.richVal(vb)))
 		case r.Chance(35) && depth < 3:
 			s := g.argSnip(depth + 1)
 			if s.K == "nil" {
@@ -358,6 +367,152 @@ func (g *gen) malformed() Snip {
 	}
 }
 
+// ---- RenderStack stream: the leaves refer to packages (values of named types of other packages, references with
+// clashing / std / keyword / generic paths, reflect.Types, PkgExpose); compared with the composed model through the
+// model of the import tracker, text AND Imports() ----
+
+var refPool = []string{
+	"time.Duration", "time.Time", "net/url.URL", "net/http.Client", "math/rand.Rand", "crypto/rand.Reader", "text/template.Template", "html/template.Template",
+	"example.com/x.Own", "verifharness/c10types.Inner", "image.Point",
+	"a.com/foo-bar.T", "b.org/foo_bar.X", "a.com/foobar.Y", "a.com/foo-bar.U",
+	"github.com/json-iterator/go.API", "example.com/x/string.S", "example.com/2fa.T", "example.com/x/type.K", "example.com/de-fer.D",
+	"k8s.io/api/core/v1.Pod", "k8s.io/api/apps/v1.Deployment", "example.com/apis/meta/v1.ObjectMeta", "example.com/domain/user.User", "example.com/user.User",
+	"example.com/o.List[a.com/foo-bar.T]", "example.com/o.Map[string,example.com/x.Own]", "example.com/o.Map[b.org/foo_bar.X,time.Time]",
+	"example.com/o.List[example.com/o.Pair[time.Time,b.org/foo_bar.X]]", "example.com/x.Gen[a.com/foobar.Y,example.com/x.Own]",
+	"example.com/o.List[example.com/o.Pair[example.com/o.Pair[int,string],a.com/foobar.Y]]",
+	// head and argument packages want the same name: the order "arguments first, then the head" decides
+	"b.org/foo_bar.X[a.com/foo-bar.T]", "a.com/foo-bar.List[b.org/foo_bar.X,a.com/foobar.Y]", "k8s.io/api/core/v1.List[k8s.io/api/apps/v1.Deployment]",
+	"example.com/user.Repo[example.com/domain/user.User]",
+	"Foo", "int", "error", "x.y", ".T", "p.L[a",
+}
+
+var selfPool = []string{defaultSelf, defaultSelf, "verifharness/c10types", "time", "a.com/foo-bar", "example.com/o"}
+
+func c10Val(r *core.RNG) Val {
+	t, v := c10.GenPair(r, 1+r.Intn(3))
+	return Val{T: "c10", CT: &t, CV: &v}
+}
+
+func c10Type(r *core.RNG) Val {
+	t, _ := c10.GenPair(r, 1+r.Intn(2))
+	return Val{T: "c10t", CT: &t}
+}
+
+func (g *gen) richLeaf() Snip {
+	r := g.r
+	switch k := r.Intn(100); {
+	case k < 38:
+		return value(c10Val(r))
+	case k < 70:
+		return ident(Val{T: "name", S: core.Pick(r, refPool)})
+	case k < 80:
+		return ident(c10Type(r))
+	case k < 92:
+		ref := core.Pick(r, refPool[:25])
+		i := strings.LastIndex(ref, ".")
+		return expose(ref[:i], ref[i+1:])
+	case k < 96:
+		return core.Pick(r, []Snip{value(Val{T: "nil"}), ident(Val{T: "nil"})})
+	}
+	return ident(Val{T: "int", I: 1})
+}
+
+func (g *gen) richVal(verb byte) Val {
+	r := g.r
+	if verb == 'T' {
+		switch k := r.Intn(10); {
+		case k < 6:
+			return Val{T: "name", S: core.Pick(r, refPool)}
+		case k < 9:
+			return c10Type(r)
+		}
+		return g.val()
+	}
+	if r.Chance(80) {
+		return c10Val(r)
+	}
+	return g.val()
+}
+
+func (g *gen) richRoot() Snip {
+	g.rich = true
+	defer func() { g.rich = false }()
+	r := g.r
+	var s Snip
+	switch k := r.Intn(100); {
+	case k < 45:
+		s = g.template(0)
+	case k < 75:
+		s = g.sprintf(0)
+	case k < 90:
+		n := 1 + r.Intn(4)
+		var l []Snip
+		for i := 0; i < n; i++ {
+			l = append(l, g.argSnip(1))
+		}
+		s = snippets(l...)
+	default:
+		s = g.richLeaf()
+	}
+	s.Self = core.Pick(r, selfPool)
+	return s
+}
+
+func orderVal(zeroA bool) Val {
+	a, b := c10.Named("c10alt.Tag"), c10.Named("c10types.Inner")
+	t := c10.StructOf([]string{"A", "B"}, []c10.TypeJ{a, b})
+	va, vb := c10.NonZero(&a), c10.NonZero(&b)
+	if zeroA {
+		va = c10.ZeroVal(&a)
+	} else {
+		vb = c10.ZeroVal(&b)
+	}
+	v := c10.FieldsVal(va, vb)
+	return Val{T: "c10", CT: &t, CV: &v}
+}
+
+func withSelf(self string, s Snip) Snip { s.Self = self; return s }
+
+// fixed corner cases of the RenderStack stream
+func fixedRich() []Snip {
+	cv := func(name string, zero bool) Val {
+		t := c10.Named(name)
+		v := c10.NonZero(&t)
+		if zero {
+			v = c10.ZeroVal(&t)
+		}
+		return Val{T: "c10", CT: &t, CV: &v}
+	}
+	ref := func(s string) Snip { return ident(Val{T: "name", S: s}) }
+	return []Snip{
+		// a zero-valued field of a named struct type of another package is omitted: its package must not be imported
+		withSelf("verifharness/c10types", value(cv("c10types.Box", true))),
+		withSelf(defaultSelf, value(cv("c10types.Box", true))),
+		withSelf(defaultSelf, value(cv("c10types.Wrap", true))),
+		withSelf(defaultSelf, value(cv("c10alt.Frame", true))),
+		// order of registration inside a value: the type literal of the struct (A's package first) BEFORE the fields
+		// (only B is rendered); both packages are called c10types
+		withSelf(defaultSelf, value(orderVal(true))),
+		withSelf(defaultSelf, value(orderVal(false))),
+		withSelf(defaultSelf, value(cv("c10types.Box", false))),
+		withSelf(defaultSelf, value(cv("c10types.Wrap", false))),
+		withSelf("verifharness/c10types", spf("var _ = %v", varg(cv("c10types.Wrap", false)))),
+		// a bound argument that no placeholder mentions registers nothing; one mentioned twice is rendered twice
+		tpl("@x @x", named("x", ref("a.com/b.T")), named("y", ref("a.com/c.T"))),
+		// clashing candidate names: the order of rendering decides who gets the short name
+		tpl("@x @y @x", named("x", ref("a.com/foo-bar.T")), named("y", ref("b.org/foo_bar.X"))),
+		tpl("@y @x", named("x", ref("a.com/foo-bar.T")), named("y", ref("b.org/foo_bar.X"))),
+		ref("b.org/foo_bar.X[a.com/foo-bar.T]"),
+		spf("%T|%v|%T", varg(Val{T: "name", S: "a.com/b.T"}), varg(Val{T: "str", S: "a.com/b.T"}), varg(Val{T: "name", S: "c.org/b.T"})),
+		spf("%T %T", varg(Val{T: "name", S: "math/rand.Rand"}), varg(Val{T: "name", S: "crypto/rand.Reader"})),
+		tpl("var _ @t = @v", named("t", ref("example.com/o.Map[b.org/foo_bar.X,time.Time]")), named("v", value(cv("time.Duration", false)))),
+		withSelf("example.com/o", ref("example.com/o.Map[b.org/foo_bar.X,example.com/o.Own]")),
+		snippets(expose("net/http", "Get"), block(" "), expose("example.com/http", "Get"), block(" "), ref("example.com/x/string.S"), block(" "), ref("github.com/json-iterator/go.API")),
+		spf("%T", varg(Val{T: "c10t", CT: func() *c10.TypeJ { t := c10.Named("c10types.Wrap"); return &t }()})),
+		withSelf("time", spf("%v %T", varg(cv("time.Duration", false)), varg(Val{T: "name", S: "time.Time"}))),
+	}
+}
+
 func (prop) Generate(r *core.RNG, tier string) []json.RawMessage {
 	n := 4000
 	if tier == "thorough" {
@@ -365,6 +520,9 @@ func (prop) Generate(r *core.RNG, tier string) []json.RawMessage {
 	}
 	var out []json.RawMessage
 	for _, s := range fixed() {
+		out = append(out, enc(s))
+	}
+	for _, s := range fixedRich() {
 		out = append(out, enc(s))
 	}
 	g := &gen{r: r}
@@ -383,6 +541,16 @@ func (prop) Generate(r *core.RNG, tier string) []json.RawMessage {
 		}
 		b.WriteString("世界@x'é")
 		out = append(out, enc(tpl(b.String(), named("x", block("X")))))
+	}
+	{ // the RenderStack stream (its own fork of the RNG: the classic stream of a seed is unchanged)
+		gr := &gen{r: r.Fork()}
+		m := 500
+		if tier == "thorough" {
+			m = 4000
+		}
+		for i := 0; i < m; i++ {
+			out = append(out, enc(gr.richRoot()))
+		}
 	}
 	if tier == "thorough" {
 		out = append(out, exhaustive()...)
